@@ -507,10 +507,16 @@ def align_variable_names_with_convention(
     def _old_name(node: ast.AST) -> str:
         return node.id if isinstance(node, ast.Name) else node.name
 
+    # The same goes for assignments that are not found, for example in nested blocks.
+    renamed_name_nodes = {node for node in renamings if isinstance(node, ast.Name)}
+    names_used_elsewhere.update(
+        node.id for node in core.walk(ast_tree, ast.Name) if node not in renamed_name_nodes
+    )
+
     renamings = {
         node: substitute
         for node, substitute in renamings.items()
-        if _old_name(node) not in names_used_elsewhere
+        if _old_name(node) not in names_used_elsewhere and substitute not in names_used_elsewhere
     }
     substitute_node_renamings = collections.defaultdict(set)
     for node, substitute in renamings.items():
